@@ -109,6 +109,7 @@ fn main() {
         std::process::exit(3);
     };
     ctx::install_panic_hook();
+    gen::set_big_cap(params.usize("big_cap", usize::MAX));
     if params.flag("noalloc") {
         alloc::set_counting(false);
     }
